@@ -5,7 +5,7 @@ from .common import *
 from . import c05
 
 LEVEL_TEXT = ("Coq theorems (C04/Props.v) over the generator state machine of pipes.Cache (the filter behind cache(), chunk(), materialize()): for every history of complete reads and reads abandoned after k items on one "
-              "object, every read returns exactly the prefix of the source it consumed (invariant cache++rest = source by induction over the pull loop and over the history); premature completion loses data (refuted); "
+              "object, every read returns exactly the prefix of the source it consumed (invariant cache++rest = source by induction over the pull loop and over the history); premature completion loses data (refuted); the same under histories that also contain reads whose source raises and pickle round trips of the object (cache_survives_failures_and_pickling); "
               "the logged Shuffle restores its temporary seed on completion and on drop. The Cache model is compared with the real class under counted upstream reads; random environment pipelines are read under random "
               "histories and compared with themselves and with a freshly built twin (the read-twice oracle), incl. params, pickling, materialize and save/from_save, with deep snapshots of caller data.")
 TRUSTED = ["Coq 8.16.1 kernel (coqc)", "extraction + ocaml/driver.ml", "harness/c04.py (pipeline generator, canonicalisation of interactions, snapshot comparison)",
@@ -13,7 +13,7 @@ TRUSTED = ["Coq 8.16.1 kernel (coqc)", "extraction + ocaml/driver.ml", "harness/
            "CPython generator close semantics (a dropped generator runs only its finally blocks); in-place aliasing ('reading never modifies caller data') is checked by snapshot only"]
 ASSUMPTIONS = ["sources are re-iterable (lists, lambdas, seeded synthetics, in-memory text sources)", "pipelines that raise on their first complete read are type-incompatible and skipped (counted)"]
 RULE = ("sources: synthetic (linear/neighbors/kernel/mlp/bandit), lambda, supervised from (X,Y) and from CSV/ARFF text; 0-5 filters with random parameters (shuffle, take, slice, reservoir, sort, scale, impute, where, noise, riffle, "
-        "flatten, binary, sparse, dense, repr, cycle, params, batch/unbatch, logged+shuffle, ope_rewards, cache, chunk); histories of 2-5 operations out of full read, partial read k, params, pickle round trip, materialize, save/from_save; "
+        "flatten, binary, sparse, dense, repr, cycle, params, batch/unbatch, logged+shuffle, ope_rewards, cache, chunk); histories of 2-5 operations out of full read, partial read k, params, pickle round trip, materialize, save/from_save; Cache event histories of 1-6 events (complete/abandoned read, source failure at item f, pickle); held params dicts; "
         "non-trivial = at least one filter and a history with a partial read or a round trip")
 
 def fingerprints():
@@ -288,6 +288,58 @@ def failing_source(ctx, n_cases):
             if got != exp:
                 ctx.fail(["cache", "truncated-after-failure"], "read #%d through the cache gave %d items without any error, the sequence has %d (the source had failed at item %d during an earlier read)" % (step, len(got), len(exp), at), case); break
 
+class Faulty:
+    """an upstream whose iterators raise when they are asked for item `fail_at` (set per read by the harness; None = healthy)"""
+    def __init__(self, items): self.items, self.fail_at = items, None
+    def __iter__(self):
+        for i, x in enumerate(self.items):
+            if self.fail_at == i: raise RuntimeError("the source failed at item %d" % i)
+            yield x
+
+def cache_events(ctx, n_cases):
+    """one Cache object driven through a history of events - complete reads, reads abandoned after k items, reads during which the source raises at item f,
+    replacement by an unpickled copy - next to the extracted model of exactly these events (C04.ModelOps.run_ops)"""
+    import pickle
+    import coba.pipes.filters as P
+    import coba.environments.filters as EF
+    rng = ctx.rng
+    reqs, metas = [], []
+    for _ in range(n_cases):
+        N = rng.choice([0, 1, 3, 7, 26, 40]); ns = rng.choice([1, 2, 5, 25]); env_level = rng.random() < 0.3
+        src = list(range(100, 100 + N)); evs = []
+        for _ in range(rng.randrange(1, 7)):
+            k = rng.random()
+            if k < 0.45: evs.append([0] if rng.random() < 0.6 else [0, rng.choice([0, 1, 2, N // 2, N, 26])])
+            elif k < 0.8: evs.append([1, rng.randrange(0, N + 2)])
+            else: evs.append([2])
+        case = dict(what="cache events", n_slice=ns, N=N, events=evs, environment_cache=env_level)
+        ctx.count("cache-events", repr(case), N >= 2 and len(evs) >= 2)
+        flt = EF.Cache(ns) if env_level else P.Cache(ns)
+        up = Faulty([{"id": x} for x in src] if env_level else src)
+        outs = []; bad = None
+        for ev in evs:
+            if ev[0] == 2:
+                try: flt = pickle.loads(pickle.dumps(flt)); outs.append([])
+                except Exception as e: bad = (["cache", "raises", errname(e), "pickle"], "pickling the Cache raised %s" % errname(e)); break
+                continue
+            up.fail_at = ev[1] if ev[0] == 1 else None
+            got = []; raised = False
+            try:
+                it = iter(flt.filter(up))
+                for x in (islice(it, ev[1]) if (ev[0] == 0 and len(ev) == 2) else it): got.append(x["id"] if env_level else x)
+                del it
+            except RuntimeError: raised = True
+            except Exception as e: bad = (["cache", "raises", errname(e), "events"], "Cache raised %s" % errname(e)); break
+            outs.append(got)
+            exp = src if ev == [0] else src[:ev[1]] if ev[0] == 0 else None
+            if ev[0] == 0 and (raised or got != exp): bad = (["cache", "wrong-read", "after-events"], "event %d of %s: the read gave %d items%s, the source has %d" % (len(outs) - 1, evs, len(got), " and raised" if raised else "", len(src))); break
+            if ev[0] == 1 and (got != src[:len(got)] or (not raised and got != src)): bad = (["cache", "wrong-read", "failing-read"], "event %d of %s: a failing read yielded %r" % (len(outs) - 1, evs, got[:8])); break
+        up.fail_at = None
+        if bad: ctx.fail(bad[0], bad[1] + " on %s" % case, case); continue
+        reqs.append((4, [ns, src, evs, 1])); metas.append((case, outs))
+    for (case, outs), mo in zip(metas, ctx.get_model().batch(reqs)):
+        if mo != outs: ctx.disagree("C04.run(cache events)", case, [len(o) for o in outs], [len(o) for o in mo])
+
 def held_params_law(ctx, n_cases):
     """a supervised source whose params is a dict the source (or the caller) keeps: constructing and reading SupervisedSimulations over it never changes that dict, and each
     simulation reports the same params at every look-up - whatever is read from its siblings over the same source in between"""
@@ -419,6 +471,7 @@ def run(ctx):
     siblings(ctx, ctx.n(60, 800))
     run_cache(ctx, ctx.n(400, 5000))
     failing_source(ctx, ctx.n(150, 2000))
+    cache_events(ctx, ctx.n(300, 4000))
     held_params_law(ctx, ctx.n(60, 800))
     run_pipelines(ctx, ctx.n(400, 5000))
 
